@@ -87,6 +87,7 @@ int main(int argc, char** argv)
                         int invocation = 0;
                         bool caught = false;
                         try {
+                            uint32_t value_to_append = a.id;
                             auto body = [&](Cell& c) {
                                 Win w(c, true);
                                 vrf::tl_vt_label = static_cast<int>(a.id);
@@ -96,12 +97,23 @@ int main(int argc, char** argv)
                                     if (a.id % 2) throw BoomStd(a.id);
                                     throw Boom{a.id};
                                 }
-                                c.append_raw(a.id);
+                                c.append_raw(value_to_append);
                                 functor_calls.fetch_add(1, std::memory_order_relaxed);
+                            };
+                            // a callable that keeps the modification reproducible the way users of a twice-applied functor do:
+                            // what it decides in its first application is remembered IN the callable (by-value state) and
+                            // replayed in the second one. A second application that starts from a pristine copy of the
+                            // callable decides anew - and the two copies of the object part company.
+                            int decisions = 0;
+                            auto memoizing = [remembered = 0u, &decisions, &value_to_append, &body, &a](Cell& c) mutable {
+                                if (remembered == 0) remembered = (decisions++ == 0) ? a.id : a.id + 100;
+                                value_to_append = remembered;
+                                body(c);
                             };
                             // the callable reaches modify() as a plain lambda, as an rvalue of a value-category-sensitive
                             // functor, or as an lvalue of one (which the caller may use again afterwards)
-                            if (a.id % 3 == 0) lr.modify(body);
+                            if (a.id % 4 == 3) lr.modify(memoizing);
+                            else if (a.id % 3 == 0) lr.modify(body);
                             else if (a.id % 3 == 1) lr.modify(vrf::one_shot(body));
                             else {
                                 auto fn = vrf::one_shot(body);
